@@ -283,13 +283,13 @@ func (r *c20Runner) tarOp(mode, pre, entries string) string {
 	var runErr error
 	switch mode {
 	case "plain":
-		runErr = retriever.UnpackTar(bytes.NewReader(payload), dest, false)
+		runErr = retriever.UnpackTar(c20Reader(payload), dest, false)
 	case "plainforce":
-		runErr = retriever.UnpackTar(bytes.NewReader(payload), dest, true)
+		runErr = retriever.UnpackTar(c20Reader(payload), dest, true)
 	case "encdirect":
-		runErr = retriever.UnpackEncryptedCollectionArchive(bytes.NewReader(payload), dest, d.priv)
+		runErr = retriever.UnpackEncryptedCollectionArchive(c20Reader(payload), dest, d.priv)
 	case "staged", "stagedforce":
-		runErr = retriever.Unpack(retriever.UnpackOptions{ArchiveReader: bytes.NewReader(payload), ArchiveIdentity: d.priv, OutputDir: dest, Force: mode == "stagedforce"})
+		runErr = retriever.Unpack(retriever.UnpackOptions{ArchiveReader: c20Reader(payload), ArchiveIdentity: d.priv, OutputDir: dest, Force: mode == "stagedforce"})
 	default:
 		return "bad-op"
 	}
